@@ -29,7 +29,7 @@ THEOREMS = {
            _t("C02U", "FlooVerif.C02U.tables_deliver", "FlooVerif.C02U.next_is_closer", "FlooVerif.C02U.remaining_decreases") +
            _t("C02Table", "FlooVerif.C02T.model_table_decodes", "FlooVerif.C02T.tableRule_spec", "FlooVerif.C02T.decode_of_mem") +
            _t("C02Model", "FlooVerif.C02M.model_tables_deliver", "FlooVerif.C02M.model_route_exists", "FlooVerif.C02M.createNetwork_closed", "FlooVerif.C02M.model_oracle_contract"),
-    "C03": _t("C03Model", "FlooVerif.C03M.model_route_unpacks", "FlooVerif.C03M.routeLit_value", "FlooVerif.C03M.routePorts_spec", "FlooVerif.C03M.hopPort_spec", "FlooVerif.C03M.routePorts_fit", "FlooVerif.C03M.genRoutes_bits_cover") + _t("HwTieWhole", "FlooVerif.HwTie.selectAll_pinned", "FlooVerif.HwTie.routerAll_pinned", "FlooVerif.HwTie.compAll_pinned") + _t("HwTiePorts", "FlooVerif.HwTie.chimneyIds_pinned") + _t("HwTieSrc", "FlooVerif.HwTie.src_agrees", "FlooVerif.HwTie.src_is_srcPop") + _t("HwTieShape", "FlooVerif.HwTie.rtl_shape") + _t("C03", "FlooVerif.C03.pack_unpack", "FlooVerif.C03.pack_lt", "FlooVerif.C03.port_fits"),
+    "C03": _t("C03Model", "FlooVerif.C03M.model_route_unpacks", "FlooVerif.C03M.routeLit_value", "FlooVerif.C03M.routePorts_spec", "FlooVerif.C03M.hopPort_spec", "FlooVerif.C03M.routePorts_fit", "FlooVerif.C03M.genRoutes_bits_cover", "FlooVerif.C03M.genRoutes_bits_pos") + _t("HwTieWhole", "FlooVerif.HwTie.selectAll_pinned", "FlooVerif.HwTie.routerAll_pinned", "FlooVerif.HwTie.compAll_pinned") + _t("HwTiePorts", "FlooVerif.HwTie.chimneyIds_pinned") + _t("HwTieSrc", "FlooVerif.HwTie.src_agrees", "FlooVerif.HwTie.src_is_srcPop") + _t("HwTieShape", "FlooVerif.HwTie.rtl_shape") + _t("C03", "FlooVerif.C03.pack_unpack", "FlooVerif.C03.pack_lt", "FlooVerif.C03.port_fits"),
     "C04": _t("HwTieWhole", "FlooVerif.HwTie.selectAll_pinned", "FlooVerif.HwTie.routerAll_pinned") + _t("HwTie", "FlooVerif.HwTie.xy_agrees") + _t("HwTieMask", "FlooVerif.HwTie.mask_agrees") + _t("HwTieShape", "FlooVerif.HwTie.rtl_shape") + _t("C04", "FlooVerif.C04.lockstep", "FlooVerif.C04.step_closer", "FlooVerif.C04.no_y_to_x_turn",
               "FlooVerif.C04.column_decision", "FlooVerif.C04.allowed_y_continuation", "FlooVerif.C04.dor_reaches") +
            _t("C07XY", "FlooVerif.C07U.xy_ids_fit") +
@@ -67,7 +67,7 @@ THEOREMS = {
               "FlooVerif.C09U.turn_model_acyclic"),
     "C11": _t("C11", "FlooVerif.C11.hw_offers_bindings", "FlooVerif.C11.hw_offers_macros",
               "FlooVerif.C11.pkg_names_and_directions", "FlooVerif.C11.hwOffers_spec"),
-    "C12": _t("C12", "FlooVerif.C12.balanced_sound", "FlooVerif.C12.unbalanced_close", "FlooVerif.C12.lit_fits_iff") +
+    "C12": _t("C03Model", "FlooVerif.C03M.genRoutes_bits_pos") + _t("C17", "FlooVerif.C17.mkRange_base_nonneg") + _t("C12", "FlooVerif.C12.balanced_sound", "FlooVerif.C12.unbalanced_close", "FlooVerif.C12.lit_fits_iff") +
            _t("C12U", "FlooVerif.C12U.ep_enum_names_distinct", "FlooVerif.C12U.ep_enum_member_unique", "FlooVerif.C12U.sam_idx_names_distinct"),
     "C13": _t("C13", "FlooVerif.C13U.sam_count", "FlooVerif.C13U.cfg_num_sam_rules", "FlooVerif.C13U.router_counts") +
            _t("C13Order", "FlooVerif.C13U.sam_idx_enumerates", "FlooVerif.C13U.names_nodup_of_genSam", "FlooVerif.C13U.dict_of_nodup"),
